@@ -470,15 +470,20 @@ class SCase(Case):
         return "S %d %d %s %s -" % (self.ht, self.doff, j("%d.%d.%d" % c for c in self.chunks), ts)
 
 
-def response_spans(chunks, want, doff, mode, boundary=b"sEss10n"):
+def response_spans(chunks, want, doff, mode, boundary=b"sEss10n", corrupt=None):
     """complete well-formed response for the chunks 'want' plus, per chunk, the body offset just after its last
     payload byte (a transfer cut at T has delivered the chunk iff that offset <= T)"""
     starts = [sum(c[0] for c in chunks[:i]) for i in range(len(chunks))]
     total = doff + sum(c[0] for c in chunks)
     ends, body = {}, b""
+    def data(t):
+        d = bytearray(prng(chunks[t][2], chunks[t][0]))
+        if corrupt is not None and corrupt[0] == t:
+            d[corrupt[1]] ^= 0x5a
+        return bytes(d)
     if mode == "plain":
         for t in want:
-            body += prng(chunks[t][2], chunks[t][0])
+            body += data(t)
             ends[t] = len(body)
         return [b"Content-Range: bytes 0-1/2\r\n"], body, ends
     for run in runs_of(want, chunks):
@@ -486,7 +491,7 @@ def response_spans(chunks, want, doff, mode, boundary=b"sEss10n"):
         n = sum(chunks[t][0] for t in run)
         body += b"\r\n--" + boundary + b"\r\nContent-Type: application/octet-stream\r\nContent-Range: bytes %d-%d/%d\r\n\r\n" % (s0, s0 + n - 1, total)
         for t in run:
-            body += prng(chunks[t][2], chunks[t][0])
+            body += data(t)
             ends[t] = len(body)
     body += b"\r\n--" + boundary + b"--\r\n"
     return [b"HTTP/1.1 206 Partial Content\r\n", ct_header(boundary), b"\r\n"], body, ends
@@ -538,6 +543,29 @@ def gen_sessions(tier, rng):
                               [(h1, b1[:T], "k2"), (h2, b2[:T2], p2), (h3, b3, "k1" if T2 % 2 else "w")])
                     c.expect = expect_for(c)
                     cases.append(c)
+        # payload corruption in transfer 1 (checksum failure: chunk zero-filled, marked failed, callback reports an error),
+        # then the retry: without a re-scan the failed chunk is not requested again (flag -1), with a re-scan it is
+        for kbad, t in enumerate(want0):
+            hb, bb, _ = response_spans(chunks, want0, 24, mode_for(mode, chunks, want0), corrupt=(t, chunks[t][0] // 2))
+            after = want0[kbad + 1:]
+            for rs in (False, True):
+                want1 = ([t] if rs else []) + after
+                want1.sort()
+                h2, b2, _ = response_spans(chunks, want1, 24, mode_for(mode, chunks, want1))
+                c = SCase("sess-corrupt:%d:%s:bad=%d:%s" % (ti, mode, t, "rescan" if rs else "noscan"), chunks,
+                          [(hb, bb, ("w", "k1", "k7")[kbad % 3]), (h2, b2, "k3", rs)])
+                flags, cls = [], []
+                for i, ch in enumerate(chunks):
+                    if ch[0] == 0:
+                        flags.append(ch[1] if ch[1] != 2 else -1); cls.append("E")
+                    elif i == t and not rs:
+                        flags.append(-1); cls.append("Z")
+                    elif ch[1] == 0 or (rs and ch[1] == 2):
+                        flags.append(1); cls.append("T")
+                    else:
+                        flags.append(ch[1] if ch[1] != 2 else -1); cls.append("T" if ch[1] == 1 else "I")
+                c.expect = {"verdict": False, "V": ",".join("%d%s" % fc for fc in zip(flags, cls))}
+                cases.append(c)
         # a complete transfer followed by a needless retry (nothing missing: empty range, nothing must change)
         c = SCase("sess:%d:%s:complete-then-empty" % (ti, mode), chunks, [(h1, b1, "k5"), ([], b"", "w")])
         c.expect = expect_for(c)
